@@ -5,6 +5,7 @@ package packaging
 
 import (
 	"fmt"
+	"github.com/microsoft/yardl/tooling/internal/verifhook"
 	"net/url"
 	"os"
 	"os/exec"
@@ -50,6 +51,7 @@ func fetchAndCachePackages(pwd string, urls []string) ([]string, error) {
 		return nil, err
 	}
 	defer os.Chdir(curLoc)
+	verifhook.Gate("after_chdir")
 
 	var dirs []string
 	for _, src := range urls {
